@@ -395,8 +395,8 @@ def check(prop, tier, seed, replay=None):
         "distinct_interleavings_or_plans": len(il_nontrivial),
         "fault_fire_counts": faults,
         "probes": probes,
-        "budget_exceeded_runs": budget,
-        "linearizability_over_budget": lin_over,
+        "runs_stopped_by_the_simulators_step_budget_not_judged": "%d" % budget,
+        "histories_over_the_linearizability_search_budget_not_judged": "%d" % lin_over,
         "builds": ["%s/%s" % c for c in combos],
         "components": COMPONENTS,
         "known_findings_seen": known_seen,
